@@ -12,6 +12,8 @@ import (
 	crand "crypto/rand"
 	"fmt"
 	"io"
+	"log"
+	"os"
 	"reflect"
 	"runtime"
 	"sort"
@@ -113,6 +115,7 @@ func Begin(ncpu int, ent io.Reader) {
 	atomic.AddInt64(&gen, 1)
 	atomic.StoreInt64(&quantum, 0)
 	atomic.StoreInt32(&poolMode, 0)
+	atomic.StoreInt32(&exitReq, 0)
 	atomic.StoreInt32(&on, 1)
 	hooks := append([]func(){}, beginHooks...)
 	mu.Unlock()
@@ -176,6 +179,37 @@ func pathID(p []int) string {
 	}
 	return s
 }
+
+// ---- process exit ----
+
+type exitSentinel struct{ code int }
+
+var (
+	exitReq  int32
+	exitCode int32
+)
+
+// Exit replaces os.Exit: inside a simulated run the "process" ends - the
+// calling task unwinds and the controller treats the run like a main that has
+// returned, with the exit status recorded - instead of killing the engine.
+func Exit(code int) {
+	if atomic.LoadInt32(&on) == 0 || current() == nil {
+		os.Exit(code)
+	}
+	atomic.StoreInt32(&exitCode, int32(code))
+	atomic.StoreInt32(&exitReq, 1)
+	panic(exitSentinel{code})
+}
+
+// ExitRequested reports whether a task called Exit during the current run.
+func ExitRequested() (bool, int) {
+	return atomic.LoadInt32(&exitReq) == 1, int(atomic.LoadInt32(&exitCode))
+}
+
+// LogFatal, LogFatalf and LogFatalln replace log.Fatal*.
+func LogFatal(v ...interface{})                 { log.Print(v...); Exit(1) }
+func LogFatalf(format string, v ...interface{}) { log.Printf(format, v...); Exit(1) }
+func LogFatalln(v ...interface{})               { log.Println(v...); Exit(1) }
 
 // CurrentID returns the canonical id of the calling task ("" outside a
 // simulated run or on a goroutine that is not a task).
@@ -269,12 +303,14 @@ func RunTask(t *Task, body func()) {
 	mu.Unlock()
 	defer func() {
 		if r := recover(); r != nil {
-			buf := make([]byte, 4096)
-			n := runtime.Stack(buf, false)
-			mu.Lock()
-			t.panicVal = r
-			t.panicStk = string(buf[:n])
-			mu.Unlock()
+			if _, isExit := r.(exitSentinel); !isExit {
+				buf := make([]byte, 4096)
+				n := runtime.Stack(buf, false)
+				mu.Lock()
+				t.panicVal = r
+				t.panicStk = string(buf[:n])
+				mu.Unlock()
+			}
 		}
 		mu.Lock()
 		delete(byGoid, g)
